@@ -36,13 +36,11 @@ def run(ctx):
     ctx.rule("C01.guard", "A3: every access to m_obj is under m_mutex (X for writes/non-const uses, "
              "S or X for const reads) or escapes only into a handle locked on the same mutex", floor=60)
     for cls in WRAPPERS:
-        n = check_guarded_fields(ctx, "C01.guard", cls)
-        if n == 0:
-            ctx.broken("no guarded-field access found in %s" % cls)
-    common.handle_rules(ctx, "C01.handle", "gmlc::libguarded::lock_handle", "std::unique_lock")
-    common.helper_summaries(ctx, "C01.helpers",
-                            ["try_lock_handle", "try_lock_handle_for", "try_lock_handle_until"], "X")
-    common.private_payload(ctx, "C01.private", WRAPPERS)
-    common.raii_only(ctx, "C01.raii", FILES)
-    common.lock_order(ctx, "C01.order")
-    common.witnesses(ctx, "C01.witness", ["C01"])
+        ctx.step(check_guarded_fields, ctx, "C01.guard", cls)
+    ctx.step(common.handle_rules, ctx, "C01.handle", "gmlc::libguarded::lock_handle", "std::unique_lock")
+    ctx.step(common.helper_summaries, ctx, "C01.helpers",
+             ["try_lock_handle", "try_lock_handle_for", "try_lock_handle_until"], "X")
+    ctx.step(common.private_payload, ctx, "C01.private", WRAPPERS)
+    ctx.step(common.raii_only, ctx, "C01.raii", FILES)
+    ctx.step(common.lock_order, ctx, "C01.order")
+    ctx.step(common.witnesses, ctx, "C01.witness", ["C01"])
